@@ -10,6 +10,31 @@ where
 	MK: Fn() -> S + Sync,
 	F: Fn(usize, &mut S, &mut Local) + Sync,
 {
+	let leg = rep.next_leg();
+	par_for_leg(rep, leg, true, n, chunk, mk, f)
+}
+
+/// `numbered` = this call is an enumeration leg of its own (its cases are addressed as (leg, index) in replay files);
+/// the level-synchronous BFS numbers itself once and runs its levels un-numbered.
+pub fn par_for_leg<S, MK, F>(rep: &Reporter, leg: usize, numbered: bool, n: usize, chunk: usize, mk: MK, f: F)
+where
+	MK: Fn() -> S + Sync,
+	F: Fn(usize, &mut S, &mut Local) + Sync,
+{
+	if numbered {
+		if let Some((fleg, idx)) = &rep.replay_filter {
+			// replay mode: only the recorded case of the recorded leg is evaluated
+			if *fleg == leg && idx.len() == 1 && idx[0] < n {
+				let mut st = mk();
+				let mut local = Local::default();
+				crate::report::set_case(leg, idx[0]);
+				f(idx[0], &mut st, &mut local);
+				crate::report::clear_case();
+				rep.merge(local);
+			}
+			return;
+		}
+	}
 	let next = AtomicUsize::new(0);
 	let jobs = rep.jobs.max(1).min(n.max(1));
 	std::thread::scope(|sc| {
@@ -24,9 +49,15 @@ where
 					}
 					let hi = (lo + chunk).min(n);
 					for i in lo..hi {
+						if numbered {
+							crate::report::set_case(leg, i);
+						}
 						f(i, &mut st, &mut local);
 					}
 					crate::mem::backpressure();
+				}
+				if numbered {
+					crate::report::clear_case();
 				}
 				crate::mem::flush();
 				rep.merge(local);
